@@ -12,7 +12,7 @@ RULE = ('every program t(..) :- [Gv = Goal,] Builtin for Builtin in {call(G), ca
         'each optionally followed by a continuation goal or used twice in a row on the same goal term} x goal in {atoms and compound goals with 0/1/2 solutions '
         'over compiled facts, a rule, dynamic facts, an undefined predicate} x goal written inline, arriving in a '
         'variable bound at run time, or through a chain of two variables aliased before the goal is bound [thorough: x one level of nesting of the builtins inside each other], each '
-        'queried with unbound and bound arguments and compared answer by answer with RefProlog; plus X = Y and '
+        'queried with unbound and bound arguments (on a new engine and on an engine that was used and cleared before the program is loaded) and compared answer by answer with RefProlog; plus X = Y and '
         'X \\= Y as goals for every pair of printable terms of depth <=1 over 2 variables. Through the Python API the SAME goal term objects are passed to call/N, once/1 and findall/3 three times in a row. Unbound variables inside a '
         'findall bag are observed anonymously (whether they are shared is not fixed by the property). states = '
         'distinct per-program outcomes; transitions = next() calls; non-trivial = some query has an answer')
@@ -224,10 +224,22 @@ NSH = 32
 
 def plan(tier):
     nesting = 0 if tier == 'quick' else 1
-    return [('b', k, NSH, nesting) for k in range(NSH)] + [('e', k, NSH) for k in range(NSH)] + [('a', k, 4) for k in range(4)]
+    return ([('b', k, NSH, nesting) for k in range(NSH)] + [('e', k, NSH) for k in range(NSH)] + [('a', k, 4) for k in range(4)]
+            + [('cleared', 'b', k, NSH, 0) for k in range(NSH)] + [('cleared', 'e', k, NSH) for k in range(NSH)])
 
 
 def run_shard(spec):
+    if spec[0] == 'cleared':
+        # the same programs on an engine that was used and cleared before the program is loaded
+        from .. import diff
+        diff.ENGINE['mode'] = 'cleared'
+        try:
+            acc = run_shard(spec[1:])
+        finally:
+            diff.ENGINE['mode'] = 'fresh'
+        for sig in list(acc.groups):
+            acc.groups['cleared-engine:' + sig] = acc.groups.pop(sig)
+        return acc
     acc = Acc()
     if spec[0] == 'b':
         _, k, n, nesting = spec
